@@ -108,19 +108,20 @@ def nesting_inputs(tier):
         add("open-prefix", n, "let v: int = " + "(+ 1 " * n)
         add("blocks", n, "if true { " * n + "}" * n)
         add("open-blocks", n, "if true { " * n)
-        add("if-chain", n, "if false { }" + " else if false { }" * n + " else { }")
+        add("if-chain", n, "if false { }" + "\n else if false { }" * n + " else { }")
         add("unary-minus", n, "let v: int = " + "- " * n + "1")
         add("unary-not", n, "let v: bool = " + "not " * n + "true")
         add("arrays", n, "let v: int = " + "[" * n + "1" + "]" * n)
-        add("field-chain", n, "let v: int = a" + ".b" * n)
+        add("field-chain", n, "let v: int = a" + "\n.b" * n)
         add("tuple-parens", n, "let v: int = " + "(1, " * n + "1" + ")" * n)
         add("call-chain", n, "let v: int = " + "(f " * n + "1" + ")" * n)
         add("struct-lit", n, "let v: int = " + "P { a: " * n + "1" + " }" * n)
         add("match-nest", n, "match x { A(a) => { " * n + "}" * (2 * n))
     for n in [1999, 2000, 2001, 5000, 200000]:
-        add("infix-chain", n, "let v: int = 1" + " + 1" * n)
-        add("and-chain", n, "let v: bool = true" + " and true" * n)
-        add("tuple-index-chain", n, "let v: int = t" + ".0 " * n)
+        # one operator per line: the diagnostics echo the source line
+        add("infix-chain", n, "let v: int = 1" + "\n + 1" * n)
+        add("and-chain", n, "let v: bool = true" + "\n and true" * n)
+        add("tuple-index-chain", n, "let v: int = t" + "\n.0 " * n)
     return out
 
 
@@ -232,13 +233,32 @@ class RealBinary:
             if not sanitize:
                 resource.setrlimit(resource.RLIMIT_AS, (3 << 30, 3 << 30))
             resource.setrlimit(resource.RLIMIT_CORE, (0, 0))
-        try:
-            p = subprocess.run([self.asan if sanitize else self.plain, src, "--emit-nvm", "-o", out], env=env, cwd=self.dir,
-                               stdout=subprocess.PIPE, stderr=subprocess.PIPE, timeout=limit_s, preexec_fn=limits)
-        except subprocess.TimeoutExpired as ex:
-            return dict(kind="timeout", rc=None, err=(ex.stderr or b"")[-400:].decode(errors="replace"))
-        err = p.stderr.decode(errors="replace")
-        o = p.stdout.decode(errors="replace")
+        fo, fe = os.path.join(self.dir, "c%d.out" % self.n), os.path.join(self.dir, "c%d.err" % self.n)
+
+        def head_tail(path):
+            with open(path, "rb") as f:
+                b = f.read(8000)
+                f.seek(0, 2)
+                size = f.tell()
+                if size > 16000:
+                    f.seek(size - 3000)
+                    b += b"\n...\n" + f.read()
+            return b.decode(errors="replace")
+        timed_out = False
+        with open(fo, "wb") as so, open(fe, "wb") as se:
+            try:
+                p = subprocess.run([self.asan if sanitize else self.plain, src, "--emit-nvm", "-o", out], env=env, cwd=self.dir,
+                                   stdout=so, stderr=se, timeout=limit_s, preexec_fn=limits)
+            except subprocess.TimeoutExpired:
+                timed_out = True
+        err, o = head_tail(fe), head_tail(fo)
+        for q in (fo, fe, out):
+            try:
+                os.unlink(q)
+            except OSError:
+                pass
+        if timed_out:
+            return dict(kind="timeout", rc=None, err=err[-400:])
         if p.returncode < 0:
             kind = "sanitizer" if ("AddressSanitizer" in err or "runtime error:" in err) else "signal"
         elif "AddressSanitizer" in err or "runtime error:" in err:
@@ -249,7 +269,7 @@ class RealBinary:
             kind = "rejected" if (err.strip() or o.strip()) else "rejected-silently"
         else:
             kind = "exit%d" % p.returncode
-        return dict(kind=kind, rc=p.returncode, err=err[:6000] if kind == "sanitizer" else err[-1500:])
+        return dict(kind=kind, rc=p.returncode, err=err[:8000] if kind == "sanitizer" else err[-1500:])
 
 
 def san_site(err, tree):
